@@ -5,6 +5,9 @@
 import Rl.Editor
 import Rl.Spec.OracleComplete
 import Rl.Lemmas.EditorLoops
+import Rl.Lemmas.CompleteLoop
+import Rl.Lemmas.CompleteUndo
+import Rl.Lemmas.CompleteList
 open Rl Rl.Spec
 
 /-- Circular order: Tab advances through candidates 0 … n-1, then the original text (index n),
@@ -98,3 +101,424 @@ theorem C14_update_truncates_fixed_buffer (S : Segmenter) (U : UData) :
       .ok ((), { buf := ['a'], pos := 1, cap := 1, canGrow := false },
            [.del 0 [] .forward, .insStr 0 ['a']]) := by
   rfl
+
+/-! ### the model's loop against the spec (`Spec.shownFor` / `Spec.spliceCand`) -/
+
+/-- `complete_line` in circular mode with at least one candidate is the circular loop started at
+    index 0 after `begin` -/
+theorem C14_completeLine_circular_eq (S : Segmenter) (U : UData) (cfg : EdCfg) (s : Ed) (fuel : Nat)
+    (hcirc : cfg.listCompletion = false) (hne : (cfg.completer s.line.buf s.line.pos).2.isEmpty = false) :
+    completeLine S U cfg fuel s =
+      completeCircular S U cfg (cfg.completer s.line.buf s.line.pos).1 (cfg.completer s.line.buf s.line.pos).2
+        s.changes.undos.length s.line.buf s.line.pos fuel 0 { s with changes := s.changes.begin.1 } := by
+  unfold completeLine
+  simp only [EM.bind_apply, getLine, hne, hcirc, Bool.false_eq_true, if_false, Bool.not_false, if_true]
+  rfl
+
+/-- **Every exit of circular completion shows what the spec prescribes** (clauses "Tab rewrites only the
+    span", "Esc restores", "any other key keeps the shown candidate and is handed back").
+    Hypotheses: circular mode; growable line buffer; the cursor and the completer's start are on
+    character boundaries of the line and start ≤ cursor.  Whatever keys are decoded inside the loop,
+    if `complete_line` returns then either it returns `none` with text and cursor exactly as before, or
+    it returns `some cmd` where `cmd` is none of `Complete` / `CompleteBackward` / `Abort`, and for some
+    index `j ≤ n` the line and cursor are `Spec.shownFor` of `j`: candidate `j` spliced over the span
+    (`Spec.spliceCand`), or the original text for `j = n`. -/
+theorem C14_circular_exit_shows_spec (S : Segmenter) (U : UData) (cfg : EdCfg) (s s' : Ed) (fuel : Nat)
+    (r : Option Cmd)
+    (hrun : completeLine S U cfg fuel s = .ok (r, s')) (hcirc : cfg.listCompletion = false)
+    (hg : s.line.canGrow = true) (hpos : IsBoundary s.line.buf s.line.pos)
+    (hstart : IsBoundary s.line.buf (cfg.completer s.line.buf s.line.pos).1)
+    (hle : (cfg.completer s.line.buf s.line.pos).1 ≤ s.line.pos) :
+    match r with
+    | none => s'.line.buf = s.line.buf ∧ s'.line.pos = s.line.pos
+    | some cmd => Cmd.endsCompletion cmd ∧ ∃ j, j ≤ (cfg.completer s.line.buf s.line.pos).2.length ∧
+        (s'.line.buf, s'.line.pos) =
+          shownFor (compSt (cfg.completer s.line.buf s.line.pos).1 (cfg.completer s.line.buf s.line.pos).2
+            s.line.buf s.line.pos j) := by
+  by_cases hne : (cfg.completer s.line.buf s.line.pos).2.isEmpty = true
+  · unfold completeLine at hrun
+    simp only [EM.bind_apply, getLine, hne, if_true] at hrun
+    cases hrun
+    exact ⟨rfl, rfl⟩
+  · have hne' : (cfg.completer s.line.buf s.line.pos).2.isEmpty = false := by simpa using hne
+    rw [C14_completeLine_circular_eq S U cfg s fuel hcirc hne'] at hrun
+    obtain ⟨x, y, z, _, hbuf, hx, hp⟩ := split3_of_boundaries hstart hpos hle
+    generalize (cfg.completer s.line.buf s.line.pos).1 = start at *
+    generalize (cfg.completer s.line.buf s.line.pos).2 = cands at *
+    subst hx
+    have hw := completeCircular_shows S U cfg x y z cands
+      s.changes.undos.length fuel 0 { s with changes := s.changes.begin.1 } (Nat.zero_le _) hg ⟨y, hbuf, hp⟩
+    rw [hbuf, hp] at hrun ⊢
+    have h := wp_ok hw hrun
+    cases r with
+    | none => exact h.2
+    | some cmd =>
+      obtain ⟨_, hc, j, hj, hsh⟩ := h
+      exact ⟨hc, j, hj, hsh⟩
+
+/-- **Accept rewrites only the span**: under the hypotheses of `C14_circular_exit_shows_spec`, after a
+    completion that hands a command back the line is `before ++ c ++ after` where `before` is the
+    original text up to the completer's start and `after` the original text from the cursor on. -/
+theorem C14_accept_span_only (S : Segmenter) (U : UData) (cfg : EdCfg) (s s' : Ed) (fuel : Nat) (cmd : Cmd)
+    (hrun : completeLine S U cfg fuel s = .ok (some cmd, s')) (hcirc : cfg.listCompletion = false)
+    (hg : s.line.canGrow = true) (hpos : IsBoundary s.line.buf s.line.pos)
+    (hstart : IsBoundary s.line.buf (cfg.completer s.line.buf s.line.pos).1)
+    (hle : (cfg.completer s.line.buf s.line.pos).1 ≤ s.line.pos) :
+    ∃ c, s'.line.buf = takeB s.line.buf (cfg.completer s.line.buf s.line.pos).1 ++ c ++ dropB s.line.buf s.line.pos ∧
+         s'.line.pos = (cfg.completer s.line.buf s.line.pos).1 + blen c := by
+  obtain ⟨x, y, z, _, hbuf, hx, hp⟩ := split3_of_boundaries hstart hpos hle
+  obtain ⟨_, j, _, hsh⟩ := C14_circular_exit_shows_spec S U cfg s s' fuel (some cmd) hrun hcirc hg hpos hstart hle
+  generalize (cfg.completer s.line.buf s.line.pos).1 = start at *
+  generalize (cfg.completer s.line.buf s.line.pos).2 = cands at *
+  subst hx
+  rw [hbuf, hp] at hsh ⊢
+  rw [shownFor_compSt] at hsh
+  rw [dropB_append3, List.append_assoc x y z, takeB_append]
+  cases hc : cands[j]? with
+  | none =>
+    rw [hc] at hsh
+    simp only [Prod.mk.injEq] at hsh
+    exact ⟨y, by rw [hsh.1], hsh.2⟩
+  | some c =>
+    rw [hc] at hsh
+    simp only [Prod.mk.injEq] at hsh
+    exact ⟨c, hsh.1, hsh.2⟩
+
+/-- **Circular completion, key by key** (clauses "successive Tabs show each candidate in order, then the
+    original text, then wrap; Shift-Tab in reverse" and "any other key keeps the shown candidate and is
+    handed back").  `CircPath … fuel 0 s₀ ks (fuel'+1) i' sk` says: in the run of the model's loop from its
+    first head (index 0, the state after `begin`), the commands decoded in the successive turns were `ks`
+    (`true` = `Complete`/Tab, `false` = `CompleteBackward`/Shift-Tab) — `CircPath.run` shows that the
+    loop from the first head IS the loop from the head reached.  Hypotheses: circular mode, at least
+    one candidate, growable buffer, cursor and completer start on boundaries, start ≤ cursor.  Then
+    (a) the index at that head is `compWalk n 0 ks` (each Tab is `compNext`, each Shift-Tab `compPrev`);
+    (b) in the next turn the command is decoded while line and cursor are exactly `Spec.shownFor` of that
+        index — so this holds at EVERY turn of the loop (every prefix of a path is a path);
+    (c) if that command is not `Complete` / `CompleteBackward` / `Abort`, `complete_line` returns it and
+        the line stays the shown one (only the undo group is closed). -/
+theorem C14_circular_key_by_key (S : Segmenter) (U : UData) (cfg : EdCfg) (s : Ed) (fuel : Nat)
+    (hcirc : cfg.listCompletion = false) (hne : (cfg.completer s.line.buf s.line.pos).2.isEmpty = false)
+    (hg : s.line.canGrow = true) (hpos : IsBoundary s.line.buf s.line.pos)
+    (hstart : IsBoundary s.line.buf (cfg.completer s.line.buf s.line.pos).1)
+    (hle : (cfg.completer s.line.buf s.line.pos).1 ≤ s.line.pos)
+    (ks : List Bool) (fuel' i' : Nat) (sk s1 : Ed) (cmd : Cmd)
+    (hpath : CircPath S U cfg (cfg.completer s.line.buf s.line.pos).1 (cfg.completer s.line.buf s.line.pos).2
+      s.line.buf s.line.pos fuel 0 { s with changes := s.changes.begin.1 } ks (fuel' + 1) i' sk)
+    (hturn : circTurn S U cfg (cfg.completer s.line.buf s.line.pos).1 (cfg.completer s.line.buf s.line.pos).2
+      s.line.buf s.line.pos fuel' i' sk = .ok (cmd, s1)) :
+    i' = compWalk (cfg.completer s.line.buf s.line.pos).2.length 0 ks ∧
+    (s1.line.buf, s1.line.pos) =
+      shownFor (compSt (cfg.completer s.line.buf s.line.pos).1 (cfg.completer s.line.buf s.line.pos).2
+        s.line.buf s.line.pos i') ∧
+    (Cmd.endsCompletion cmd →
+      completeLine S U cfg fuel s = .ok (some cmd, { s1 with changes := s1.changes.end_.1 })) := by
+  have heq := C14_completeLine_circular_eq S U cfg s fuel hcirc hne
+  obtain ⟨x, y, z, _, hbuf, hx, hp⟩ := split3_of_boundaries hstart hpos hle
+  generalize (cfg.completer s.line.buf s.line.pos).1 = start at *
+  generalize (cfg.completer s.line.buf s.line.pos).2 = cands at *
+  subst hx
+  rw [hbuf, hp] at hpath hturn heq ⊢
+  obtain ⟨hi, _, hgk, hsk⟩ := hpath.inv S U cfg x y z cands (Nat.zero_le _) hg ⟨y, hbuf, hp⟩
+  obtain ⟨hsh, _⟩ := circTurn_shows S U cfg x y z cands fuel' i' sk s1 cmd hgk hsk hturn
+  refine ⟨hi, hsh, fun hc => ?_⟩
+  obtain ⟨m', e⟩ := hpath.run S U cfg s.changes.undos.length
+  rw [heq, e]
+  exact completeCircular_accept S U cfg _ _ _ _ _ _ _ _ _ _ hc hturn
+
+/-- after `k` Tabs (and nothing else) the index shown is `k mod (n + 1)` = `tabs n k` (index `n` = the
+    original text): each candidate in order, then the original text, then wrap -/
+theorem C14_k_tabs_walk (n k : Nat) : compWalk n 0 (List.replicate k true) = tabs n k := by
+  rw [compWalk_tabs n k 0 (Nat.zero_le _), C14_k_tabs, Nat.zero_add]
+
+/-- Shift-Tab undoes Tab on the index walk: `ks ++ [Tab, Shift-Tab]` ends where `ks` ends -/
+theorem C14_walk_tab_backtab (n i : Nat) (ks : List Bool) (hi : i ≤ n) :
+    compWalk n i (ks ++ [true, false]) = compWalk n i ks := by
+  induction ks generalizing i with
+  | nil => simp only [List.nil_append, compWalk]; exact C14_prev_next n i hi
+  | cons k ks ih =>
+    cases k
+    · simp only [List.cons_append, compWalk]; exact ih _ (C14_prev_in_range n i hi)
+    · simp only [List.cons_append, compWalk]; exact ih _ (C14_next_in_range n i)
+
+/-! ### one Undo after an accepted completion (emacs mode) -/
+
+/-- **One Undo after an accepted completion restores the pre-completion text** (emacs mode, circular
+    completion).  Hypotheses: emacs mode; circular mode; growable buffer; no undo group open when Tab
+    is pressed (`level = 0`: emacs mode between commands); the undo stack is an exact log of the line
+    (it replays, oldest change first, from some text `t0` to the text of the line — the invariant
+    `UndoLogInv` of C05/C17).  Then for EVERY key sequence inside the loop, if `complete_line` hands a
+    command back:
+    (a) the undo stack is the stack from before plus ONE closed group `End :: body ++ Begin :: …` with
+        `body` non-empty and free of markers, no group is open, and the stack is again an exact log;
+    (b) `Changeset::undo` with count 1 on the resulting state succeeds, leaves exactly the
+        pre-completion text, and the undo stack from before the completion. -/
+theorem C14_undo_after_accept (S : Segmenter) (U : UData) (cfg : EdCfg) (hvi : cfg.vi = false)
+    (hcirc : cfg.listCompletion = false) (s s' : Ed) (fuel : Nat) (cmd : Cmd) (t0 : Text)
+    (hrun : completeLine S U cfg fuel s = .ok (some cmd, s'))
+    (hg : s.line.canGrow = true) (hl0 : s.changes.level = 0)
+    (hlog : replayLog s.changes.undos.reverse t0 = some s.line.buf) :
+    (∃ body, body ≠ [] ∧ (∀ ch ∈ body, ch.isMarker = false) ∧
+      s'.changes.undos = .end_ :: body ++ .begin :: s.changes.undos ∧ s'.changes.level = 0 ∧
+      replayLog s'.changes.undos.reverse t0 = some s'.line.buf) ∧
+    ∃ c' lb' undone, s'.changes.undo S U s'.line 1 = .ok (c', lb', undone) ∧
+      lb'.buf = s.line.buf ∧ c'.undos = s.changes.undos := by
+  by_cases hne : (cfg.completer s.line.buf s.line.pos).2.isEmpty = true
+  · unfold completeLine at hrun
+    simp only [EM.bind_apply, getLine, hne, if_true] at hrun
+    cases hrun
+  · have hne' : (cfg.completer s.line.buf s.line.pos).2.isEmpty = false := by simpa using hne
+    rw [C14_completeLine_circular_eq S U cfg s fuel hcirc hne'] at hrun
+    have hpos : 0 < (cfg.completer s.line.buf s.line.pos).2.length := by
+      cases h : (cfg.completer s.line.buf s.line.pos).2 with
+      | nil => rw [h] at hne'; cases hne'
+      | cons a l => simp
+    have hw := completeCircular_accept_log S U cfg hvi s.changes t0 hl0
+      (cfg.completer s.line.buf s.line.pos).1 (cfg.completer s.line.buf s.line.pos).2 s.line.buf s.line.pos
+      fuel s.changes.undos.length 0 { s with changes := s.changes.begin.1 } []
+      ⟨GroupLog.start s.changes, hg, (C05_log_markers s.changes t0 _ hlog).1⟩ (Or.inr hpos)
+    obtain ⟨body, hb1, hb2, hb3, hb4, hb5⟩ := wp_ok hw hrun cmd rfl
+    exact ⟨⟨body, hb1, hb2, hb3, hb4, hb5⟩, undo_one_group S U s'.changes body s.changes.undos t0 s.line.buf s'.line hb3 hb2 hb5 hlog⟩
+
+/-! ### list mode -/
+
+/-- **List mode rewrites the span to the longest common prefix, or nothing** (model level, every exit).
+    Hypotheses: list mode, at least one candidate, cursor and completer start on character boundaries,
+    start ≤ cursor.  Whatever follows the first Tab (another key handed back, or a second Tab that lists
+    the candidates — the cursor goes to the end and comes back), when `complete_line` returns the line
+    and cursor are: `Spec.spliceCand` of the prefix `lcp` that the model's `lcpChars` returns, when
+    `blen lcp > cursor − start` or there is exactly one candidate; the original line and cursor otherwise.
+    Text before the start and after the cursor is intact in both cases (`C14_spec_span_only`). -/
+theorem C14_list_lcp (S : Segmenter) (U : UData) (cfg : EdCfg) (s s' : Ed) (fuel : Nat) (r : Option Cmd)
+    (hrun : completeLine S U cfg fuel s = .ok (r, s')) (hlist : cfg.listCompletion = true)
+    (hne : (cfg.completer s.line.buf s.line.pos).2.isEmpty = false)
+    (hpos : IsBoundary s.line.buf s.line.pos)
+    (hstart : IsBoundary s.line.buf (cfg.completer s.line.buf s.line.pos).1)
+    (hle : (cfg.completer s.line.buf s.line.pos).1 ≤ s.line.pos) :
+    (s'.line.buf, s'.line.pos) =
+      match lcpChars (cfg.completer s.line.buf s.line.pos).2 with
+      | some lcp =>
+        if blen lcp > s.line.pos - (cfg.completer s.line.buf s.line.pos).1 ||
+            (cfg.completer s.line.buf s.line.pos).2.length == 1 then
+          spliceCand (compSt (cfg.completer s.line.buf s.line.pos).1 (cfg.completer s.line.buf s.line.pos).2
+            s.line.buf s.line.pos 0) lcp
+        else (s.line.buf, s.line.pos)
+      | none => (s.line.buf, s.line.pos) := by
+  obtain ⟨x, y, z, _, hbuf, hx, hp⟩ := split3_of_boundaries hstart hpos hle
+  have hc : cfg.completer s.line.buf s.line.pos = (blen x, (cfg.completer s.line.buf s.line.pos).2) := by
+    rw [← hx]
+  have hw := completeLine_list S U cfg x y z (cfg.completer s.line.buf s.line.pos).2 fuel s hlist hne hbuf hp hc
+  have h := wp_ok hw hrun
+  rw [h]
+  generalize (cfg.completer s.line.buf s.line.pos).1 = start at *
+  generalize (cfg.completer s.line.buf s.line.pos).2 = cands at *
+  subst hx
+  unfold listShown
+  rw [hbuf, hp]
+  have hsub : blen x + blen y - blen x = blen y := by omega
+  cases lcpChars cands with
+  | none => rfl
+  | some lcp => simp only [hsub, spliceCand_compSt]
+
+/-- the model's prefix is the spec's `lcpOf` (for two or more candidates, when non-empty; the single
+    candidate itself for one), and `lcpOf` is a prefix of EVERY candidate -/
+theorem C14_lcp_is_common_prefix (cands : List Text) (p : Text) (h : lcpChars cands = some p) :
+    p = lcpOf cands ∧ ∀ c ∈ cands, p <+: c := by
+  have hp : p = lcpOf cands := by
+    rw [lcpChars_spec] at h
+    match cands, h with
+    | [c], h => simp only [Option.some.injEq] at h; rw [← h]; rfl
+    | c :: d :: cs, h =>
+      simp only [] at h
+      by_cases he : (lcpOf (c :: d :: cs)).isEmpty = true
+      · rw [if_pos he] at h; cases h
+      · rw [if_neg he] at h; exact (Option.some.inj h).symm
+  exact ⟨hp, fun c hc => by rw [hp]; exact lcpOf_prefix cands c hc⟩
+
+/-- **List mode against the oracle's formula.**  Under the hypotheses of `C14_list_lcp` and unless the
+    only candidate is the empty string, the line after list-mode completion is what `Spec.oracleC14`
+    prescribes: with `lcp = lcpOf cands`, `spliceCand lcp` when `lcp` is non-empty and
+    (`blen lcp > cursor − start` or there is one candidate), the original line otherwise. -/
+theorem C14_list_matches_oracle (S : Segmenter) (U : UData) (cfg : EdCfg) (s s' : Ed) (fuel : Nat) (r : Option Cmd)
+    (hrun : completeLine S U cfg fuel s = .ok (r, s')) (hlist : cfg.listCompletion = true)
+    (hne : (cfg.completer s.line.buf s.line.pos).2.isEmpty = false)
+    (hnot : (cfg.completer s.line.buf s.line.pos).2 ≠ [[]])
+    (hpos : IsBoundary s.line.buf s.line.pos)
+    (hstart : IsBoundary s.line.buf (cfg.completer s.line.buf s.line.pos).1)
+    (hle : (cfg.completer s.line.buf s.line.pos).1 ≤ s.line.pos) :
+    (s'.line.buf, s'.line.pos) =
+      if (!(lcpOf (cfg.completer s.line.buf s.line.pos).2).isEmpty &&
+          (blen (lcpOf (cfg.completer s.line.buf s.line.pos).2) > s.line.pos - (cfg.completer s.line.buf s.line.pos).1 ||
+           (cfg.completer s.line.buf s.line.pos).2.length == 1)) = true then
+        spliceCand (compSt (cfg.completer s.line.buf s.line.pos).1 (cfg.completer s.line.buf s.line.pos).2
+          s.line.buf s.line.pos 0) (lcpOf (cfg.completer s.line.buf s.line.pos).2)
+      else (s.line.buf, s.line.pos) := by
+  rw [C14_list_lcp S U cfg s s' fuel r hrun hlist hne hpos hstart hle]
+  generalize (cfg.completer s.line.buf s.line.pos).1 = start at *
+  generalize (cfg.completer s.line.buf s.line.pos).2 = cands at *
+  rw [lcpChars_spec]
+  match cands, hne, hnot with
+  | [c], _, hnot =>
+    have hc : c.isEmpty = false := by
+      cases c with
+      | nil => exact absurd rfl hnot
+      | cons a l => rfl
+    simp [lcpOf, hc]
+  | c :: d :: cs, _, _ =>
+    by_cases he : (lcpOf (c :: d :: cs)).isEmpty = true
+    · simp [he]
+    · simp [he]
+
+/-! ### concrete runs: non-vacuity, regression examples, and the clauses that are false as written -/
+
+/-- witness data: one cluster per character (`charSeg`), width = number of chars -/
+def C14_wit_udata : UData :=
+  { alnum := Char.isAlphanum, ws := Char.isWhitespace, upper := fun c => [c], lower := fun c => [c],
+    width := List.length }
+
+/-- emacs mode, circular completion, a completer that offers "foo" and "fu" for the word starting at byte 3 -/
+def C14_wit_cfg : EdCfg :=
+  { vi := false, hasHelper := true, hasCompleter := true, completer := (fun _ _ => (3, [['f','o','o'], ['f','u']])) }
+
+/-- line "ls f x" with the cursor after the "f" (byte 4), empty undo log, pending input `keys` -/
+def C14_wit_state (keys : List (List UInt8)) : Ed :=
+  { line := { buf := ['l','s',' ','f',' ','x'], pos := 4, cap := 64, canGrow := true },
+    saved := { buf := [], pos := 0, cap := 64, canGrow := true },
+    changes := Changeset.new, ring := KillRing.new 60, histIdx := 0,
+    inp := {}, hint := none, highlightChar := false, defaultPrompt := true,
+    input := { buf := [], avail := [], future := keys }, obs := [], validatorCalls := [] }
+
+/-- the hypotheses of `C14_circular_exit_shows_spec` / `C14_circular_key_by_key` / `C14_undo_after_accept`
+    hold of the witness state (non-vacuity) -/
+example (keys : List (List UInt8)) :
+    C14_wit_cfg.listCompletion = false ∧ C14_wit_cfg.vi = false ∧
+    (C14_wit_state keys).line.canGrow = true ∧ (C14_wit_state keys).changes.level = 0 ∧
+    IsBoundary (C14_wit_state keys).line.buf (C14_wit_state keys).line.pos ∧
+    IsBoundary (C14_wit_state keys).line.buf
+      (C14_wit_cfg.completer (C14_wit_state keys).line.buf (C14_wit_state keys).line.pos).1 ∧
+    (C14_wit_cfg.completer (C14_wit_state keys).line.buf (C14_wit_state keys).line.pos).1 ≤ (C14_wit_state keys).line.pos ∧
+    replayLog (C14_wit_state keys).changes.undos.reverse ['l','s',' ','f',' ','x'] = some (C14_wit_state keys).line.buf :=
+  ⟨rfl, rfl, rfl, rfl, ⟨['l','s',' ','f'], [' ','x'], rfl, rfl⟩, ⟨['l','s',' '], ['f',' ','x'], rfl, rfl⟩,
+    (by show 3 ≤ 4; omega), rfl⟩
+
+/-- a whole run: Tab was pressed; inside the loop Tab, Tab, Tab (second candidate, original text, wrap to
+    the first candidate), then `x`: the loop hands `SelfInsert x` back with "ls foo x", cursor after "foo";
+    text before byte 3 and after the original cursor is intact -/
+example :
+    (completeLine charSeg C14_wit_udata C14_wit_cfg 8 (C14_wit_state [[0x09], [0x09], [0x09], [0x78]])).toOption.map
+      (fun r => (r.1 == some (.selfInsert 1 'x'), r.2.line.buf, r.2.line.pos)) =
+    some (true, ['l','s',' ','f','o','o',' ','x'], 6) := by decide +kernel
+
+/-- … and one Undo on the result gives the pre-completion text back, with the log from before -/
+example :
+    (match completeLine charSeg C14_wit_udata C14_wit_cfg 8 (C14_wit_state [[0x09], [0x09], [0x09], [0x78]]) with
+     | .ok (_, s) => (match s.changes.undo charSeg C14_wit_udata s.line 1 with
+                      | .ok (c, l, _) => some (l.buf, c.undos)
+                      | .error _ => none)
+     | .error _ => none) = some (['l','s',' ','f',' ','x'], []) := by decide +kernel
+
+/-- Esc after two candidates: nothing is handed back, text, cursor and undo log are as before -/
+example :
+    (completeLine charSeg C14_wit_udata C14_wit_cfg 8 (C14_wit_state [[0x09], [0x07]])).toOption.map
+      (fun r => (r.1.isNone, r.2.line.buf, r.2.line.pos, r.2.changes.undos, r.2.changes.level)) =
+    some (true, ['l','s',' ','f',' ','x'], 4, [], 0) := by decide +kernel
+
+/-- "One Undo after an accepted completion restores the pre-completion text" for EVERY mode and log
+    state (the hypotheses `emacs mode` and `no group open` of `C14_undo_after_accept` dropped) -/
+def C14_undo_after_accept_statement : Prop :=
+  ∀ (S : Segmenter) (U : UData) (cfg : EdCfg) (s s' : Ed) (fuel : Nat) (cmd : Cmd) (t0 : Text),
+    cfg.listCompletion = false → completeLine S U cfg fuel s = .ok (some cmd, s') →
+    s.line.canGrow = true → replayLog s.changes.undos.reverse t0 = some s.line.buf →
+    ∃ c' lb' undone, s'.changes.undo S U s'.line 1 = .ok (c', lb', undone) ∧ lb'.buf = s.line.buf
+
+/-- vi insert mode with the insert session's group open (`[Insert(0,"ab"), Begin]`, level 1), line "ab",
+    one candidate "abc" -/
+def C14_wit_vi_cfg : EdCfg :=
+  { vi := true, hasHelper := true, hasCompleter := true, completer := (fun _ _ => (0, [['a','b','c']])) }
+
+def C14_wit_vi_state : Ed :=
+  { line := { buf := ['a','b'], pos := 2, cap := 64, canGrow := true },
+    saved := { buf := [], pos := 0, cap := 64, canGrow := true },
+    changes := { level := 1, undos := [.insert 0 ['a','b'], .begin], redos := [] }, ring := KillRing.new 60, histIdx := 0,
+    inp := {}, hint := none, highlightChar := false, defaultPrompt := true,
+    input := { buf := [], avail := [], future := [[0x78]] }, obs := [], validatorCalls := [] }
+
+/-- vi insert mode: accepting the completion (`changes.end()` closes ALL open groups) also closes the
+    insert session's group, so one Undo afterwards takes back the whole session — the line is "" and not
+    the pre-completion "ab" (as in vi, where `u` undoes an insert session as a whole) -/
+theorem C14_vi_undo_after_accept_takes_session :
+    (match completeLine charSeg C14_wit_udata C14_wit_vi_cfg 8 C14_wit_vi_state with
+     | .ok (r, s) => (match s.changes.undo charSeg C14_wit_udata s.line 1 with
+                      | .ok (_, l, _) => some (r.isSome, s.line.buf, l.buf)
+                      | .error _ => none)
+     | .error _ => none) = some (true, ['a','b','c'], []) := by decide +kernel
+
+/-- **the undo clause without "emacs mode, no group open" is false** (witness above; benign: vi semantics) -/
+theorem C14_undo_after_accept_statement_false : ¬ C14_undo_after_accept_statement := by
+  intro h
+  have w := C14_vi_undo_after_accept_takes_session
+  cases hr : completeLine charSeg C14_wit_udata C14_wit_vi_cfg 8 C14_wit_vi_state with
+  | error e => rw [hr] at w; cases w
+  | ok r =>
+    obtain ⟨o, s'⟩ := r
+    rw [hr] at w
+    cases o with
+    | none =>
+      simp only [] at w
+      split at w <;> simp at w
+    | some cmd =>
+      obtain ⟨c', lb', u, hu, hb⟩ := h charSeg C14_wit_udata C14_wit_vi_cfg C14_wit_vi_state s' 8 cmd [] rfl hr rfl rfl
+      simp only [hu, Option.some.injEq, Prod.mk.injEq] at w
+      rw [hb] at w
+      exact absurd w.2.2 (by decide)
+
+/-- list mode, ONE candidate which is the empty string, word "f" before the cursor -/
+def C14_wit_list_cfg : EdCfg :=
+  { vi := false, listCompletion := true, hasHelper := true, hasCompleter := true, completer := (fun _ _ => (3, [[]])) }
+
+/-- **list mode with the empty string as the only candidate deletes the word**: `longest_common_prefix`
+    returns the single candidate as it is and `candidates.len() == 1` forces the replacement, so "ls f x"
+    becomes "ls  x" — the span does not "become the longest common prefix when that extends it", and
+    `Spec.oracleC14` (which asks for a non-empty prefix) prescribes the unchanged line here.  This is the
+    case excluded by `hnot` in `C14_list_matches_oracle`; model and `src/lib.rs:153-158` agree. -/
+theorem C14_list_single_empty_candidate_deletes_span :
+    (completeLine charSeg C14_wit_udata C14_wit_list_cfg 8 (C14_wit_state [])).toOption.map
+      (fun r => (r.1.isNone, r.2.line.buf, r.2.line.pos)) = some (true, ['l','s',' ',' ','x'], 3) ∧
+    (if (!(lcpOf [([] : Text)]).isEmpty && (blen (lcpOf [([] : Text)]) > 4 - 3 || [([] : Text)].length == 1)) = true
+     then spliceCand (compSt 3 [[]] ['l','s',' ','f',' ','x'] 4 0) (lcpOf [[]])
+     else ((['l','s',' ','f',' ','x'] : Text), 4)) = (['l','s',' ','f',' ','x'], 4) := by
+  constructor
+  · decide +kernel
+  · rfl
+
+/-- non-vacuity of the path hypothesis of `C14_circular_key_by_key`: on the witness state with the
+    pending keys Tab, `x` there is a one-Tab path from the first loop head to the head with index 1, and
+    the turn there reads `SelfInsert x` -/
+example :
+    ∃ s1 s2,
+      CircPath charSeg C14_wit_udata C14_wit_cfg 3 [['f','o','o'], ['f','u']] ['l','s',' ','f',' ','x'] 4 8 0
+        { C14_wit_state [[0x09], [0x78]] with changes := (C14_wit_state [[0x09], [0x78]]).changes.begin.1 }
+        [true] (6 + 1) 1 s1 ∧
+      circTurn charSeg C14_wit_udata C14_wit_cfg 3 [['f','o','o'], ['f','u']] ['l','s',' ','f',' ','x'] 4 6 1 s1 =
+        .ok (.selfInsert 1 'x', s2) := by
+  have w : (match circTurn charSeg C14_wit_udata C14_wit_cfg 3 [['f','o','o'], ['f','u']] ['l','s',' ','f',' ','x'] 4 7 0
+        { C14_wit_state [[0x09], [0x78]] with changes := (C14_wit_state [[0x09], [0x78]]).changes.begin.1 } with
+      | .ok (c1, s1) =>
+        (match circTurn charSeg C14_wit_udata C14_wit_cfg 3 [['f','o','o'], ['f','u']] ['l','s',' ','f',' ','x'] 4 6 1 s1 with
+         | .ok (c2, _) => some (c1, c2)
+         | .error _ => none)
+      | .error _ => none) = some (Cmd.complete, Cmd.selfInsert 1 'x') := by decide +kernel
+  cases h1 : circTurn charSeg C14_wit_udata C14_wit_cfg 3 [['f','o','o'], ['f','u']] ['l','s',' ','f',' ','x'] 4 7 0
+      { C14_wit_state [[0x09], [0x78]] with changes := (C14_wit_state [[0x09], [0x78]]).changes.begin.1 } with
+  | error e => rw [h1] at w; cases w
+  | ok r1 =>
+    obtain ⟨c1, s1⟩ := r1
+    rw [h1] at w
+    simp only [] at w
+    cases h2 : circTurn charSeg C14_wit_udata C14_wit_cfg 3 [['f','o','o'], ['f','u']] ['l','s',' ','f',' ','x'] 4 6 1 s1 with
+    | error e => rw [h2] at w; cases w
+    | ok r2 =>
+      obtain ⟨c2, s2⟩ := r2
+      rw [h2] at w
+      simp only [Option.some.injEq, Prod.mk.injEq] at w
+      obtain ⟨rfl, rfl⟩ := w
+      exact ⟨s1, s2, CircPath.tab h1 (CircPath.nil _ _ _), h2⟩
